@@ -498,6 +498,21 @@ def load_request(ps, settings_nonempty):
     return ' '.join(t)
 
 
+def own_files(F, n, kind):
+    """what may lie below an object folder F besides its parts, with the SAME relative names at every level: a meta.xml of its own,
+    a thumbnail, an ObjectReplacements-like file, pictures (also in a sub-folder), files named like top-level members, a
+    configuration folder.  -> ([(path, mediatype, bytes)], [(directory path, mediatype)])"""
+    k = n % 251
+    meta = new_real(kind, n, False).metaxml().encode('utf-8')
+    files = [(u'meta.xml', u'text/xml', meta), (u'extra.bin', u'application/x-thing', bytes([k, 9])),
+             (u'Thumbnails/thumbnail.png', u'image/png', bytes([k, 1])), (u'ObjectReplacements/Object 1', u'application/x-openoffice-gdimetafile', bytes([k, 2])),
+             (u'Pictures/own.png', u'image/png', bytes([k, 4])), (u'Pictures/sub/deep.png', u'image/png', bytes([k, 3])),
+             (u'mimetype', u'', KINDS[kind].encode('utf-8')), (u'META-INF/manifest.xml', u'text/xml', b'<m/>'),
+             (u'Configurations2/menubar/menubar.xml', u'', bytes([60, k, 62]))]
+    dirs = [(u'Thumbnails/', u''), (u'Configurations2/', u'application/vnd.sun.xml.ui.configuration')]
+    return [(F + r, t, b) for r, t, b in files], [(F + r, t) for r, t in dirs]
+
+
 def parts_of(kind, marker, settings):
     """XML parts of a fresh real document, to be put into a hand-made package"""
     d = new_real(kind, marker, settings)
